@@ -12,7 +12,10 @@ Domain
   * `T` is an immutable opaque term (symbol, application of an un-interpreted function, attribute / item of an opaque value,
     arithmetic on opaque values, derivative terms `vjp` / `jvp`), hash-consed through a canonical nested tuple `T.c`;
   * `Closure`, `Bound`, `Partial`, `Pullback` are callables created by the interpreted code; a closure that escapes into a term
-    is canonicalised *extensionally* (applied to fresh symbols), so alpha-equivalent / eta-equivalent callables coincide;
+    is canonicalised *extensionally* (applied to fresh symbols), so alpha-equivalent / eta-equivalent callables coincide; a bound
+    method of an interpreted instance (`helper.method` of a private helper class, instantiated by running its `__init__`) that escapes
+    is canonicalised the same way, under the heap of that moment, so it is the lambda / nested def that makes the same call;
+  * `x.shape`-expressions are tuples and broadcasts / mapped results are arrays, hence never `None`: `kw is None` is decided for them;
   * `Obj` is an instance of a repository class with a mutable attribute store (the heap), `Rec` an immutable record
     (namedtuple or field-annotated class instance).
 Arrays
@@ -277,6 +280,7 @@ class Interp:
         self.events = []                  # opaque applications, in execution order
         self.modenv = {}
         self.in_canon = 0
+        self.depth_bound = 0              # nesting of extensional canonicalisations of bound methods
         self.lamdepth = 0
         self.depth = 0
         self.objs = []
@@ -338,6 +342,18 @@ class Interp:
         if isinstance(v, Closure):
             return self.canon_closure(v)[0]
         if isinstance(v, Bound):
+            # a bound method whose body is interpreted is the callable `lambda *a: method(recv, *a)` under the heap of this moment:
+            # handing `helper.method` on is the same value as handing on the lambda / nested def that makes that call
+            if isinstance(v.recv, Obj) and self.depth_bound < 4 and self.should_inline(v.func.scope) and v.func.scope.qualname not in self.stubs:
+                n = self.arity(v)
+                if n is not None and not v.func.scope.kwonly():
+                    self.depth_bound += 1
+                    try:
+                        c = self.canon_fn(v, n, structural=False)
+                    finally:
+                        self.depth_bound -= 1
+                    if c is not None and not (isinstance(c[3], tuple) and c[3] and c[3][0] == "closure?"):
+                        return c
             return ("bound", self.canon(v.recv), v.func.scope.qualname)
         if isinstance(v, Partial):
             n = self.arity(v)
@@ -728,6 +744,14 @@ class Interp:
             return opn in ("!=", "is not")
         if opn in ("==", "is", "!=", "is not") and isinstance(a, tuple) and b is None:
             return opn in ("!=", "is not")
+        # a shape expression (x.shape, (n,) + x.shape, ...) is a tuple and the result of an array construction (broadcast, mapped
+        # computation) is an array: neither is None, so `kw is None` / `kw == None` on such a value is decided -- an optional keyword whose
+        # default None stands for "derive it from the other arguments" is followed at every call site that passes the value explicitly
+        if opn in ("is", "is not") or (opn in ("==", "!=") and (a is None or b is None)):
+            for x, y in ((a, b), (b, a)):
+                # (`==` between an array and None is an elementwise comparison: only the identity test is decided for arrays)
+                if y is None and isinstance(x, T) and ((opn in ("is", "is not") and x.op in ("bcast", "bcastto", "vmap")) or self.shape_parts(x) is not None):
+                    return opn in ("!=", "is not")
         if opn in ("==", "!=") and isinstance(a, tuple) and isinstance(b, tuple) and len(a) != len(b):
             return opn == "!="
         return self.mk("cmp", (opn, a, b))
